@@ -240,6 +240,8 @@ def blame_key(isa, log, d, pool2, base_tree):
     s = d["step"]
     st = log["steps"][s - 1]
     loc = loc_name(d["before"]) if d["before"] not in ("?", "nobase") else loc_name(d["after"])
+    if d.get("locidx") == -1:
+        loc = "*"                       # the evaluation as a whole changed (one of them raised)
     witness = "/".join(blocks[d["b"]]["mnem"]) if d["b"] in blocks else "?"
     regs = []
 
